@@ -802,6 +802,8 @@ class Explorer:
             return self.V(f, fid, c[1] if t else c[2], st)
         if k == "CallExpr":
             return TOP      # calls are executed as CFG elements only
+        if k == "AtomicExpr":
+            return self._atomic(f, fid, i, n, st)
         return TOP
 
     @staticmethod
@@ -819,6 +821,57 @@ class Explorer:
             t[k_] = t.get(k_, 0) + c_
         v = mk_lin(la[0] + lb[0], t)
         return PTR(p[1], p[2][:-1] + ((v[1] if v[0] == "int" else v),))
+
+    def _atomic(self, f, fid, i, n, st):
+        """C11 atomics executed on the abstract store (sequentially consistent,
+        one thread at a time: the interleavings are the rule's business)."""
+        op = n.get("op", "")
+        c = n["c"]
+        pv = self.V(f, fid, c[0], st)
+        loc = (pv[1], pv[2]) if pv[0] == "ptr" else None
+        ev = ("atomic", op, loc, f.key, i)
+        if self.merge:
+            self.event_log.append(ev)
+        else:
+            st.events = st.events + (ev,)
+        if op.endswith("atomic_load"):
+            return self.load(st.store, loc)
+        if op.endswith("atomic_store") or op.endswith("atomic_init"):
+            v = self.V(f, fid, c[2] if len(c) > 2 else c[1], st)
+            if loc is not None:
+                self._store(f, st, loc, v, i)
+            return TOP
+        if "compare_exchange" in op:
+            ev_ptr = self.V(f, fid, c[2], st)
+            eloc = (ev_ptr[1], ev_ptr[2]) if ev_ptr[0] == "ptr" else None
+            desired = self.V(f, fid, c[4], st)
+            cur = self.load(st.store, loc)
+            exp = self.load(st.store, eloc)
+            if cur[0] == "int" and exp[0] == "int":
+                if cur[1] == exp[1]:
+                    if loc is not None:
+                        self._store(f, st, loc, desired, i)
+                    return INT(1)
+                if eloc is not None:
+                    st.store[eloc] = cur
+                return INT(0)
+            if loc is not None:
+                st.store[loc] = TOP
+            if eloc is not None:
+                st.store[eloc] = TOP
+            return TOP
+        if "exchange" in op:
+            old = self.load(st.store, loc)
+            v = self.V(f, fid, c[2], st)
+            if loc is not None:
+                self._store(f, st, loc, v, i)
+            return old
+        if "fetch_" in op:
+            old = self.load(st.store, loc)
+            if loc is not None:
+                st.store[loc] = TOP
+            return old
+        return TOP
 
     def _lin_binop(self, f, i, n, op, a, b, st):
         """Arithmetic / comparison when an operand is a linear form (or a mask of
